@@ -196,6 +196,15 @@ def main():
         return rep.finish()
     if args.replay:
         case = json.load(open(args.replay))
+        if case.get("op") == "queries":
+            rr = rp.run({k: v for k, v in case.items() if k in ("op", "doc", "exprs")})
+            print("replay %s -> %s" % (case.get("exprs"), rr.get("fresh")))
+            fr = rr.get("fresh") or [None, 1]
+            if "panic" in rr or "died" in rr or fr[0] != fr[1]:
+                print("VIOLATION property=C08 replay=%s" % args.replay)
+                return 1
+            print("does not reproduce on the current tree")
+            return 0
         rr = rp.run({k: v for k, v in case.items() if k in ("op", "input", "doc")})
         print("replay %s -> %s" % (case.get("input"), rr))
         if case.get("expect") == "accepted":
@@ -211,7 +220,7 @@ def main():
         return 0
     N = 6 if args.tier == "quick" else 8
     timeout_s = 300 if args.tier == "quick" else 2400
-    rep.bounds = {"free_mode_max_len": N, "templates": [t[0] for t in templates(args.tier)], "outside": "axis equivalences and every other equality between evaluator runs on a document (//, ., .., @, omitted child::); left-associativity of the evaluator's folds; expressions longer than the bounds"}
+    rep.bounds = {"free_mode_max_len": N, "templates": [t[0] for t in templates(args.tier)], "outside": "equalities between evaluator runs on whole documents beyond the per-abbreviation term equivalence of C08.s.abbrev; left-associativity of the evaluator's folds; expressions longer than the bounds"}
     rep.assumptions += ["reference grammar spec/xpathref.py (scannerless reading of XPath 1.0 section 3 with the longest-token rule); strict = no white space around the whole expression, lenient = with",
                         "nom semantics as in C01/C02"]
     known_open, _ = common.known_findings("C08")
@@ -298,6 +307,12 @@ def main():
     for k in known_open:
         if k.get("class") in seen_known:
             rep.known_finding(k, "%s class=%s witness=%s" % (k.get("what", ""), k["class"], show(seen_known[k["class"]])))
+    # abbreviated steps against their expansions, at evaluation time
+    try:
+        import c08abbr
+        c08abbr.obligations(rep, rp)
+    except Exception as e:  # noqa
+        rep.inconclusive.append("abbreviations: %s: %s" % (type(e).__name__, e))
     w = predicate_rule(rep, timeout_s)
     if w is not None:
         # replay: a document with `position` children, predicate [v]
